@@ -47,6 +47,22 @@ STRENGTHEN = {
  "C19-r3m1": "ptm1_track is run with non-default thresholds in the quick tier too (C19)",
  "C20-r3m1": "spy on the native entry point: every array handed to specpart.partition must be a C-contiguous float32 block; float32/float64 views with negative, non-unit strides and transposed storage are fed through ptm1/2/3/hp01 (C20); float32 non-contiguous variants in C05",
  "C20-r3m2": "worker death (exit() inside native code) is detected at once by the process pool and reported as a failure instead of a hang",
+ "C02-r4m1": "direction grids whose north bin is labelled 360 added to C02 (dp must be a coordinate label); the regenerated npstats.dp kernel already broke a bridge",
+ "C02-r4m2": "flume-scale amplitudes (exact power-of-two scaling, Hs well below a millimetre) added to C02",
+ "C05-r4m2": "the second operand of rmse is stored in another direction order than the first (catalogue)",
+ "C07-r4m2": "ptm1/ptm2 with plain-number wind and depth added to the shared catalogue (C07)",
+ "C09-r4m2": "full-circle grids labelled dd…360 added to the C09 generator",
+ "C10-r4m1": "crossing seas whose mean direction is a cardinal direction up to round-off added to C10 (the regenerated dm body also broke a bridge)",
+ "C12-r4m1": "nearly calm wind components (speed below 0.01 m/s) added to C12 (the translator had already reported the changed literal)",
+ "C12-r4m2": "WWM datasets whose spectral dimensions carry index coordinates added to C12",
+ "C13-r4m1": "NDBC realtime files carry the 999 marker in all four moment files of an empty bin (C13)",
+ "C13-r4m2": "read_swanow (nowcast files overlapping in time) is now covered by C13",
+ "C17-r4m2": "new basis given as bare coordinate DataArrays without attributes added to the C17 table",
+ "C18-r4m1": "histories contain writer calls acting on a writable view of the object's own buffer (observe, write, observe)",
+ "C18-r4m2": "histories contain curve fits on another object followed by operations that make numpy/xarray warn",
+ "C19-r4m2": "daily and 36-hourly series added to the C19 generator (the regenerated np_track_partitions had already broken a bridge)",
+ "C20-r4m2": "an ordinary spectrum with 0, 1 and 2 time records must give finite results for every operation (C20)",
+ "C11-r4m2": "stations west of Greenwich ([-180,180) convention) added to C11 (the WW3 writer's format theorem had already broken)",
  "C20-m1": "whole-map timeout in pmap: a hang inside native code is reported as a termination failure and the native sub-check still runs (C20)",
 }
 MANUAL_LATER = {  # re-runs done directly with tools/seeded.py (not in a batch log)
